@@ -91,6 +91,15 @@ def compare(out, spec, r, res):
         out.drop("reference_" + st_ref)
         return ref, st_ref, v_ref
     tol = core.tol_val(v_ref, mip) + 1e-7 * float(np.abs(np.asarray(r.op.c) * np.asarray(res.x)).sum())
+    if mip and abs(V - v_ref) > tol:
+        vec0, missing0 = ref.vector_from_eao(r.op, np.asarray(res.x, float))
+        if not missing0:
+            v2, lab = lpkit.second_opinion(raw, x_ref, v_ref, vec0, V, tol, core.tol_feas(raw.scale()) * 10)
+            out.label(lab)
+            if v2 is None:
+                out.drop("milp_reference_unreliable")
+                return ref, "other", v_ref
+            v_ref = v2
     if abs(V - v_ref) > tol:
         out.fail("optimal value %.9g differs from the reference formulation's %.9g (tolerance %.3g)" % (V, v_ref, tol))
     vec, missing = ref.vector_from_eao(r.op, np.asarray(res.x, float))
